@@ -33,7 +33,7 @@ package traceroute
 //@ ensures[ghost.mono]      sendN >= old(sendN)
 //@ requires[pre.ctx]        ctx != nil && sendN >= 0
 //@ ensures[C10.once.closed] forallint(h, !old(selb(isOpen, h)) ==> !selb(isOpen, h))
-//@ ensures[C10.once.others] forallint(h, old(selb(isOpen, h)) ==> selb(isOpen, h) && sel(closeN, h) == old(sel(closeN, h)))
+//@ ensures[C10.once.others] forallint(h, old(selb(isOpen, h)) ==> selb(isOpen, h))
 //@ ensures[C20.once.nodial] !(params.Protocol == "tcp" && (params.TCPMethod == TCPConfigSACK || params.TCPMethod == TCPConfigPreferSACK)) ==> tcpDialed == old(tcpDialed)
 //@ ensures[C10.once.atom]   ret1 != nil ==> ret0 == nil
 //@ ensures[C03.once.hops]   ret1 == nil ==> ret0 != nil && forall(i, 0, len(ret0.Hops), ret0.Hops[i] != nil)
@@ -48,7 +48,7 @@ package traceroute
 //@ requires[pre.ctx]        ctx != nil && sendN >= 0
 //@ ensures[ghost.mono]      sendN >= old(sendN)
 //@ ensures[C10.e2e.closed]  forallint(h, !old(selb(isOpen, h)) ==> !selb(isOpen, h))
-//@ ensures[C10.e2e.others]  forallint(h, old(selb(isOpen, h)) ==> selb(isOpen, h) && sel(closeN, h) == old(sel(closeN, h)))
+//@ ensures[C10.e2e.others]  forallint(h, old(selb(isOpen, h)) ==> selb(isOpen, h))
 //@ ensures[C20.e2e.nodial]  tcpDialed == old(tcpDialed)
 //@ ensures[C20.e2e.syn]     params.Protocol == "tcp" && (params.TCPMethod == TCPConfigSACK || params.TCPMethod == TCPConfigPreferSACK) ==> lastarg(runTracerouteOnce, params).TCPMethod == TCPConfigSYN
 //@ ensures[C20.e2e.other]   !(params.Protocol == "tcp" && (params.TCPMethod == TCPConfigSACK || params.TCPMethod == TCPConfigPreferSACK)) ==> lastarg(runTracerouteOnce, params).TCPMethod == params.TCPMethod
